@@ -311,7 +311,11 @@ def guarded(fn):
 
 def main(ctx):
     from mc.longarr import marks as _marks
-    LONG_EXTRA = tuple(m + d for m in _marks(ctx) for d in (0, 1))      # universal marks, see mc/longarr.py
+    from mc.longarr import harvest_lengths
+    from esutil import coords as _coords
+    _hl, _hb = harvest_lengths([_coords])
+    ctx.notes.append("long arrays: integer constants harvested from esutil.coords: %r" % (_hb,))
+    LONG_EXTRA = tuple(m + d for m in _marks(ctx) for d in (0, 1)) + tuple(n for n in _hl if n >= 1000)      # universal marks + harvested, see mc/longarr.py
     from esutil import coords
 
     gen = seeded_points(ctx.seed)
